@@ -1080,7 +1080,7 @@ def gen_border_case(rng, shape=None, mkind=None):
             "dtype": rng.choice(["float32", "float64"]), "qn": qn, "kind": "border-continuous", "mkind": mkind, "outside": "smooth"}
 
 
-def gen_seam_case(rng, L=None, R=None, transposed=None, sign=None):
+def gen_seam_case(rng, L=None, R=None, transposed=None, sign=None, interior_cut=False):
     """periodic grid whose mask component is held together ONLY by the seam of exactly one axis: a band that spans
     the periodic axis completely, cut once across; the ramp runs through the seam.  Non-square sizes, the other
     axis of length 1, 2 or more (H or W in {1, 2}: self-loops / double edges).  (L, R, transposed, sign given: the
@@ -1105,6 +1105,8 @@ def gen_seam_case(rng, L=None, R=None, transposed=None, sign=None):
                 r0 = 1 if r1 >= 1 else 0
     k = 1 if L <= 4 else rng.randint(1, 2)
     c0 = rng.randint(0, L - 1)
+    if interior_cut:                             # the cut strictly inside: the two parts touch ONLY across the seam
+        c0 = 1 + c0 % max(1, L - 1 - k)
     cut = {(c0 + j) % L for j in range(k)}
     start = (c0 + k) % L
     s0 = 1 if rng.chance(0.5) else -1
@@ -2128,7 +2130,7 @@ def g6_flip_histories():
         rng = Rng(G6_SEED + 900 + k)
         transposed = bool(k % 2) if min(H, W) > 2 else (H > W)     # seam of axis 0 when transposed
         L, R = (H, W) if transposed else (W, H)
-        per = lambda j: gen_seam_case(rng.fork(j), L=L, R=R, transposed=transposed, sign=(-1 if (k + j) % 2 == 0 else 1))  # noqa
+        per = lambda j: gen_seam_case(rng.fork(j), L=L, R=R, transposed=transposed, sign=(-1 if (k + j) % 2 == 0 else 1), interior_cut=True)  # noqa
         if min(H, W) >= 6:
             bnd = lambda j: gen_border_case(rng.fork(100 + j), shape=(H, W), mkind=("none" if j % 2 == 0 else "border"))  # noqa
         else:                                                       # thin grids: a steep bounded ramp, no mask
